@@ -12,7 +12,7 @@ META = {
         "table OID) and their PyWrapper counterparts run against the reference agent; the rows are compared with "
         "the rows derived from the database, and the variants with each other."),
     "bounds": ["columns {1, 2, 5} x indexes {1, 10, 1.1} (quick) / columns {1, 2, 5} x indexes {1, 2, 10, 1.2.3} (thorough)",
-               "neighbour object before and after the table", "bulk size 1..3 (thorough 1..4)"],
+               "neighbour objects before and after the table, one of them (7.30.x after table 7.3) sharing the table's leading digits", "bulk size 1..3 (thorough 1..4)"],
     "outside": ["larger tables", "more than one entry node below the table OID"],
     "stubs": ["sender = trampoline", "get_request_id pinned"],
     "assumptions": ["table() is addressed by the entry OID and bulktable() by the table OID, as their documentation and tests prescribe"],
@@ -25,7 +25,7 @@ ENTRY = T + (1,)
 def make_harness(cols, idxs, maxbulk):
     idxs = sorted(idxs)
     cells = [(c, i) for c in cols for i in idxs]
-    objects = [C.O("7.2.0")] + [ENTRY + (c,) + i for c, i in cells] + [C.O("7.4.1.0")]
+    objects = [C.O("7.2.0")] + [ENTRY + (c,) + i for c, i in cells] + [C.O("7.4.1.0"), C.O("7.30.1.1.1")]
     universe = [(o, C.value_for(k)) for k, o in enumerate(objects)]
     assert [o for o, _ in universe] == sorted(o for o, _ in universe)
 
@@ -107,7 +107,7 @@ def jobs(tier):
         for part in range(8):
             a = [Arg(f"p{i}", 0, 1) for i in range(n)] + [Arg("bulk", 1, maxbulk)]
             a[0] = Arg("p0", part % 2, part % 2)
-            a[n - 1] = Arg(f"p{n-1}", (part // 2) % 2, (part // 2) % 2)
+            a[n - 2] = Arg(f"p{n-2}", (part // 2) % 2, (part // 2) % 2)
             a[1] = Arg("p1", part // 4, part // 4)
             out.append(Job(f"table-{len(cols)}x{len(idxs)}-part{part}", h, a, timeout=600 if quick else 1800, mode="E/concolic-window",
                            functions=funcs, sample_every=17))
